@@ -185,7 +185,7 @@ Proof.
         intro X. apply A2. eapply Permutation_in; [apply Permutation_sym; apply (eregs_perm _ _ _ (take_key_perm _ _ _ _ T))|].
         right. exact X. }
       pose proof (still_call_fn r f (e_args e) (popped e rr o bad ev' s) Hr) as S2.
-      destruct (call_fn f (e_args e) (popped e rr o bad ev' s)) as [s1 x]. simpl in *.
+      destruct (call_fn f (e_args e) (popped e rr o bad ev' s)) as [s1 x]. rewrite ?after_call_never. simpl in *.
       eapply still_trans; [exact S1| |exact A]. eapply still_trans; [exact S2|apply IH].
     + simpl. apply still_ext; simpl; auto; lia.
 Qed.
@@ -408,7 +408,7 @@ Proof.
       assert (Hf : forall r M, o = Some (r, M) -> holder_ok r M (popped e rr oo bad ev' s) f).
       { intros r M ->. destruct H as [_ (_ & _ & D)]. apply (D (e_name e) f). apply (take_key_some _ _ _ _ T). }
       pose proof (PB_call_fn o f (e_args e) _ A Hf H1) as H2.
-      destruct (call_fn f (e_args e) (popped e rr oo bad ev' s)) as [s1 x]. apply IH. exact H2.
+      destruct (call_fn f (e_args e) (popped e rr oo bad ev' s)) as [s1 x]. rewrite ?after_call_never. apply IH. exact H2.
     + simpl. eapply PB_ext; [| | |exact H]; reflexivity.
 Qed.
 
